@@ -26,8 +26,12 @@ def classify(op, m):
     return op.split(' ')[0] + ':' + m.split(' ')[0]
 
 
-def sh(cmd, cwd=None, env=None, inp=None):
-    p = subprocess.run(cmd, cwd=cwd, env=env, input=inp, stdout=subprocess.PIPE, stderr=subprocess.PIPE, timeout=120)
+def sh(cmd, cwd=None, env=None, inp=None, stdin_path=None):
+    if stdin_path is not None:      # stdin redirected from a regular file (tool < file), not a pipe
+        with open(stdin_path, 'rb') as f:
+            p = subprocess.run(cmd, cwd=cwd, env=env, stdin=f, stdout=subprocess.PIPE, stderr=subprocess.PIPE, timeout=120)
+    else:
+        p = subprocess.run(cmd, cwd=cwd, env=env, input=inp, stdout=subprocess.PIPE, stderr=subprocess.PIPE, timeout=120)
     return p.returncode, p.stdout, p.stderr
 
 
@@ -149,7 +153,9 @@ def sxg_cli_core(ctx, rng, thorough, T, B, keys, wfile):
         # that already holds a longer file (a previous, bigger version of the page)
         via_stdout = i % 3 != 0
         if i % 2 == 0: cmd += ['-responseHeader', 'Content-Type: text/html; charset=utf-8']
-        if via_stdout: cmd[cmd.index('-o') + 1] = '-'
+        if via_stdout:
+            cmd[cmd.index('-o') + 1] = '-'
+            if i % 4 == 1: cmd += ['-ignoreErrors']          # (only skips the tool's self-check; must not change what goes to stdout)
         else:
             stale(outp, 100000)
             hd, sm = os.path.join(T, f'hd{i}.cbor'), os.path.join(T, f'sm{i}.bin')
@@ -160,8 +166,11 @@ def sxg_cli_core(ctx, rng, thorough, T, B, keys, wfile):
             open(outp, 'wb').write(so)
         rec(ctx, f'c20.gen-signedexchange {ver} key={kname} rs={rs} stdout={via_stdout} ct={i % 2 == 0} uri={uri}', 'exit %d %s' % (rc, err.decode()[-160:].strip() if rc else ''), 'exit 0 ')
         if rc == 0:
-            if i % 2 == 1:      # the reader fed through stdin
-                rc2, out2, err2 = sh([B('dump-signedexchange'), '-verify', '-cert', chain, '-payload=false'], inp=open(outp, 'rb').read())
+            if i % 2 == 1:      # the reader fed through stdin: a pipe, or (tool < file) a regular file
+                if i % 4 == 1:
+                    rc2, out2, err2 = sh([B('dump-signedexchange'), '-verify', '-cert', chain, '-payload=false'], stdin_path=outp)
+                else:
+                    rc2, out2, err2 = sh([B('dump-signedexchange'), '-verify', '-cert', chain, '-payload=false'], inp=open(outp, 'rb').read())
             else:
                 rc2, out2, err2 = sh([B('dump-signedexchange'), '-i', outp, '-verify', '-cert', chain, '-payload=false'])
             ok = b'The exchange has a valid signature' in out2 or b'valid' in out2.lower()
@@ -198,6 +207,46 @@ def sxg_cli_stage(ctx, rng, thorough=False):
             with open(p, 'wb') as f: f.write(data)
             return p
         sxg_cli_core(ctx, rng, thorough, T, lambda n: os.path.join(bindir, n), keys, wfile)
+    finally:
+        shutil.rmtree(T, ignore_errors=True)
+
+
+
+def sign_bundle_variants_stage(ctx, rng):
+    """the real sign-bundle binary on bundles the signer has special cases for (b1 with several representations per URL, bundles with
+    an exchange that cannot be added): it either refuses, or what it writes verifies completely (dump-bundle). Used by the C06 check."""
+    import bundlelib
+    T = tempfile.mkdtemp(prefix='verif-sbv-', dir=os.environ.get('TMPDIR', '/tmp'))
+    try:
+        bindir = os.path.join(T, 'bin'); os.makedirs(bindir)
+        rc, out, err = sh(['go', 'build', '-o', bindir + '/', './go/bundle/cmd/sign-bundle', './go/bundle/cmd/dump-bundle', './go/signedexchange/cmd/gen-certurl'], cwd=REPO, env=GOENV)
+        if rc != 0:
+            ctx.infra.append('building sign-bundle failed: ' + err.decode()[-300:]); return
+        r = ctx.go([f'setup.pem ec-pkcs8-p256 {hexs(b"example.com")} {hexs(b"s3cret")}'])[0]
+        if not (r and r.startswith('ok ')):
+            ctx.infra.append('setup.pem failed'); return
+        _, kp, cp, pp, raw = r.split(' ')
+        def wf(n, d):
+            p_ = os.path.join(T, n); open(p_, 'wb').write(d); return p_
+        certpem, keypem, ocsp = wf('c.pem', unhex(cp)), wf('k.pem', unhex(kp)), wf('o.der', b'dummy-ocsp')
+        rc, chainb, _ = sh([os.path.join(bindir, 'gen-certurl'), '-pem', certpem, '-ocsp', ocsp])
+        chain = wf('chain.cbor', chainb)
+        specs = []
+        grp = bundlelib.variants_group(rng, b'https://example.com/v', [(b'Accept-Language', [b'en', b'fr'])])
+        specs.append(('b1-variants', bundlelib.bundle('b1', b'https://example.com/v', None, None, [e for e, c in grp] + [bundlelib.exch(b'https://example.com/o', 200, [], b'other')])))
+        specs.append(('b1-plain', bundlelib.bundle('b1', b'https://example.com/', None, None, [bundlelib.exch(b'https://example.com/', 200, [(b'Content-Type', [b'text/plain'])], b'body'), bundlelib.exch(b'https://example.com/e', 200, [], b'')])))
+        specs.append(('b2-plain', bundlelib.bundle('b2', b'https://example.com/', None, None, [bundlelib.exch(b'https://example.com/', 200, [(b'Content-Type', [b'text/plain'])], b'body')])))
+        wr = ctx.go([f'bundle.write {b}' for _, b in specs])
+        for (name, _), w_ in zip(specs, wr):
+            if not (w_ and w_.startswith('ok ')): continue
+            inp, outp = wf(name + '.wbn', unhex(w_.split(' ')[1])), os.path.join(T, name + '.signed.wbn')
+            rc5, _, err5 = sh([os.path.join(bindir, 'sign-bundle'), 'signatures-section', '-i', inp, '-o', outp, '-certificate', chain, '-privateKey', keypem, '-validityUrl', 'https://example.com/validity', '-miRecordSize', '16'])
+            verdict = 'refused'
+            if rc5 == 0:
+                rc6, out6, _ = sh([os.path.join(bindir, 'dump-bundle'), '-i', outp])
+                bad = out6.count(b'verification error')
+                verdict = 'signed-and-verifies' if (rc6 == 0 and bad == 0) else f'signed-but-exit={rc6}-verification-errors={bad}'
+            ctx.records.append((f'c06.sign-bundle-cli {name}', 'consistent' if verdict in ('refused', 'signed-and-verifies') else verdict, 'consistent'))
     finally:
         shutil.rmtree(T, ignore_errors=True)
 
@@ -252,6 +301,10 @@ def _run(ctx, rng, thorough, T):
         root = os.path.join(T, f'tree{ti}')
         os.makedirs(root)
         files = make_tree(rng, root, rng.randrange(1, 8))
+        if ti % 6 == 0:      # the tree that gets signed below always has an empty file and index.html files at two levels (never left to the draw)
+            for rel_, data_ in (('empty.bin', b''), ('index.html', b'<html>root</html>'), ('sub dir/index.html', b'<html>sub</html>'), ('sub dir/zero', b'')):
+                p_ = os.path.join(root, rel_); os.makedirs(os.path.dirname(p_), exist_ok=True)
+                open(p_, 'wb').write(data_); files[rel_] = data_
         outp = os.path.join(T, f'tree{ti}.wbn')
         if ti % 3 == 1: stale(outp, 200000)
         cwd = None
@@ -286,6 +339,23 @@ def _run(ctx, rng, thorough, T):
             continue
         rc2, out2, err2 = sh([B('dump-bundle'), '-i', outp])
         rec(ctx, 'c20.dump-bundle-accepts tree=%d' % ti, 'exit %d' % rc2, 'exit 0')
+        if ti % 3 == 0:
+            # flag values gen-bundle may refuse but must not turn into a bundle the reader rejects: a primary URL with a fragment,
+            # with credentials, relative, empty
+            goodp = sorted(u for u, kind in expected.items() if kind != 'redirect')[0].decode()
+            for pv in (goodp + '#top', goodp.replace('https://', 'https://bob@', 1), goodp + '?', 'relative/path', goodp.upper()):
+                outq = os.path.join(T, f'tree{ti}-p.wbn')
+                cq = [x for x in cmd]
+                if '-primaryURL' in cq: cq[cq.index('-primaryURL') + 1] = pv
+                else: cq += ['-primaryURL', pv]
+                cq[cq.index('-o') + 1] = outq
+                if os.path.exists(outq): os.remove(outq)
+                rcq, _, _ = sh(cq, cwd=cwd)
+                verdict = 'refused'
+                if rcq == 0:
+                    rcd, _, _ = sh([B('dump-bundle'), '-i', outq])
+                    verdict = 'emitted-and-accepted' if rcd == 0 else 'emitted-but-rejected-by-dump-bundle'
+                rec(ctx, f'c20.gen-bundle-primaryURL tree={ti} ver={ver} value={pv[len(goodp):] or pv}', 'consistent' if verdict != 'emitted-but-rejected-by-dump-bundle' else verdict, 'consistent')
         data = open(outp, 'rb').read()
         g, m = read_stage(ctx, [hexs(data)])
         got, ngot = {}, 0
